@@ -713,12 +713,14 @@ def write_translated(path):
     ali, aerrors = py2lean.generate_alias(os.path.join(SRC, "serif"))
     rep, perrors = py2lean.generate_repr(os.path.join(SRC, "serif"))
     nam, nerrors = py2lean.generate_names(os.path.join(SRC, "serif"))
-    rerrors = rerrors + gerrors + aerrors + perrors + nerrors
+    vec, verrors = py2lean.generate_vec(os.path.join(SRC, "serif"))
+    rerrors = rerrors + gerrors + aerrors + perrors + nerrors + verrors
     for pth, txt in ((path, text), (os.path.join(os.path.dirname(path), "TranslatedRel.lean"), rel),
                      (os.path.join(os.path.dirname(path), "TranslatedGroup.lean"), grp),
                      (os.path.join(os.path.dirname(path), "TranslatedAlias.lean"), ali),
                      (os.path.join(os.path.dirname(path), "TranslatedRepr.lean"), rep),
-                     (os.path.join(os.path.dirname(path), "TranslatedNames.lean"), nam)):
+                     (os.path.join(os.path.dirname(path), "TranslatedNames.lean"), nam),
+                     (os.path.join(os.path.dirname(path), "TranslatedVec.lean"), vec)):
         old = open(pth).read() if os.path.exists(pth) else None
         if old != txt:
             tmp = pth + ".tmp%d" % os.getpid()
